@@ -200,6 +200,14 @@ def main(rep, tier, only):
                         bad = str(e)
                         break
                     if spec["kind"] == "all_of":
+                        if isinstance(v, tuple) and v and v[0] in ("cmp", "not", "and", "or"):
+                            try:
+                                v = sx.TRUE if it2.decide(v) else sx.FALSE     # a returned comparison is a truth value of the domain
+                            except (sx.NeedDecision, sx.Unsupported) as e:
+                                bad = "a returned comparison is not decided by the order domain: %s" % sx.show(v)
+                                break
+                        if isinstance(v, tuple) and v and v[0] == "k" and str(v[1]) in ("0", "1", "true", "false"):
+                            v = sx.TRUE if str(v[1]) in ("1", "true") else sx.FALSE       # a literal truth value
                         got = (v == sx.TRUE) if v in (sx.TRUE, sx.FALSE) else None
                         want = bool(spec["pred"](r))
                         if got is None or got != want:
